@@ -192,6 +192,11 @@ def switch_programs():
              N('O', SW('p1', 'S', [('l1', 'C1'), ('l2', 'C2')], name='sw1'), I('p2', 'C1'))]
     p = P('switch_case_also_input', nodes, 'A', 'O', tags=['switch', 'D4'])
     out += variants(p, [[R({'S': ['label:l1']})], [R({'S': ['label:l2']})]], ['l1', 'l2'])
+    # a case that is also consumed directly and sits deeper in the launch order than the switch node
+    nodes = [N('A'), N('S', I('p1', 'A')), N('Q1', I('p1', 'A')), N('Q2', I('p1', 'Q1')), N('C1', I('p1', 'Q2')),
+             N('C2', I('p1', 'A')), N('O', SW('p1', 'S', [('l1', 'C1'), ('l2', 'C2')], name='sw1'), I('p2', 'C1'))]
+    p = P('switch_deep_case_also_input', nodes, 'A', 'O', tags=['switch'])
+    out += variants(p, [[R({'S': ['label:l1']})], [R({'S': ['label:l2']})]], ['l1', 'l2'])
     # switch node consumed as a plain input too
     nodes = [N('A'), N('S', I('p1', 'A')), N('C1', I('p1', 'A')), N('C2', I('p1', 'A')),
              N('O', SW('p1', 'S', [('l1', 'C1'), ('l2', 'C2')], name='sw1'), I('p2', 'S'))]
@@ -254,6 +259,11 @@ def oneof_programs():
              N('O', OO('p1', ['K1', 'K2']), I('p2', 'SH'))]
     p = P('oneof_shared_up', nodes, 'A', 'O', tags=['oneof', 'shared'])
     out += variants(p, [[R({})], [R({'K1': ['raise:E1']})]], ['ok', 'k1'])
+    # a node required by the main pipeline AND by a candidate fails: the failure is not contained
+    nodes = [N('A'), N('X', I('p1', 'A')), N('K1', I('p1', 'X')), N('K2', I('p1', 'A')), N('M', OO('p1', ['K1', 'K2'])),
+             N('Y', I('p1', 'X')), N('O', I('p1', 'M'), I('p2', 'Y'))]
+    p = P('oneof_shared_required', nodes, 'A', 'O', tags=['oneof', 'shared'])
+    out += variants(p, [[R({'X': ['raise:E1']})], [R({})], [R({'K1': ['raise:E2']})]], ['xfails', 'ok', 'k1fails'])
     # one-of behind a plain node (the one-of consumer is not the output)
     nodes = [N('A'), N('K1', I('p1', 'A')), N('K2', I('p1', 'A')), N('M', OO('p1', ['K1', 'K2'])), N('Z', I('p1', 'A')),
              N('O', I('p1', 'M'), I('p2', 'Z'))]
@@ -317,6 +327,23 @@ def rec_programs():
     p = P('rec_in_oneof', nodes, 'A', 'O', tags=['rec', 'oneof'])
     out += variants(p, [[R(recreq={'D': 1})], [R(recreq={'D': 3})], [R({'S': ['raise:E1']}, recreq={'D': 1})]],
                     ['it1', 'exhaust_fallback', 'sfails'])
+    # destination reachable from two scopes: its consumer is also needed by one-of candidates, so the one-of
+    # sub-pipeline issues a duplicate request for the destination while the main pipeline iterates it
+    nodes = [N('A'), N('S', I('p1', 'A')), N('D', I('p1', 'S')), N('U', RC('p1', 'S', 'D', 2), I('p9', 'A')),
+             N('K1', I('p1', 'U')), N('K2', I('p1', 'A'), I('p2', 'U')), N('M', OO('p1', ['K1', 'K2']), I('p9', 'U')),
+             N('O', I('p1', 'U'), I('p2', 'M'))]
+    out += variants(P('rec_dest_two_scopes', nodes, 'A', 'O', tags=['rec', 'oneof', 'shared']),
+                    [[R(recreq={'D': 2})], [R(recreq={'D': 1})], [R({'K1': ['raise:E1']}, recreq={'D': 1})]],
+                    ['it2', 'it1', 'it1_k1fails'])
+    # a recurrent destination required by the main pipeline and by a one-of candidate fails: executed first in
+    # the one-of scope its exception is kept as a value; the main pipeline must still fail (shape found by the
+    # random generator, seed 1 / 49)
+    nodes = [N('A'), N('N1', I('p1', 'A')), N('S', I('p1', 'N1')), N('D', I('p1', 'S')), N('U', RC('p1', 'S', 'D', 2)),
+             N('K1', I('p1', 'U')), N('K2', I('p1', 'N1')), N('M', OO('p1', ['K1', 'K2']), I('p9', 'A')),
+             N('O', I('p1', 'N1'), I('p2', 'U'), I('p3', 'M'))]
+    out += variants(P('rec_dest_fails_two_scopes', nodes, 'A', 'O', tags=['rec', 'oneof', 'shared']),
+                    [[R({'D': ['raise:E3']}, recreq={'D': 3})], [R({'S': ['raise:E1']}, recreq={'D': 1})]],
+                    ['dfails', 'sfails'])
     # D8: outside reader of an inside node, deeper than the destination
     nodes = [N('A'), N('S', I('p1', 'A')), N('M', I('p1', 'S')), N('D', I('p1', 'M')),
              N('Q1', I('p1', 'A')), N('Q2', I('p1', 'Q1')), N('Q3', I('p1', 'Q2')), N('Q4', I('p1', 'Q3')),
